@@ -30,7 +30,7 @@ package skiplist
 //@   | && (forall a K, b K, c K :: o.Compare(a, b) == LT && o.Compare(b, c) == LT ==> o.Compare(a, c) == LT)
 //@ pred totalorder(list) = totalord(list.Ord)
 
-//@ pred shape(list) = list != nil && list.head != nil && !live(list)[list.head] && alloc(list.head) && list.levels >= 1 && len(list.path) == list.levels && len(list.head.fingers) == list.levels
+//@ pred shape(list) = list != nil && list.random != nil && len(list.p) == list.levels + 1 && list.head != nil && !live(list)[list.head] && alloc(list.head) && list.levels >= 1 && len(list.path) == list.levels && len(list.head.fingers) == list.levels
 //@   | && (forall x *tSkipNode :: live(list)[x] ==> x != nil && x != list.head && alloc(x) && 1 <= len(x.fingers) && len(x.fingers) <= list.levels)
 // (2) every finger points to a live node of sufficient rank with a larger key
 //@ pred fingersok(list) = forall x *tSkipNode, l Int :: isnode(list, x) && 0 <= l && l < len(x.fingers) && x.fingers[l] != nil ==> live(list)[x.fingers[l]] && len(x.fingers[l].fingers) > l && (x == list.head || lt(list, x.key, x.fingers[l].key))
@@ -84,12 +84,16 @@ package skiplist
 //@   loop 1 invariant 0 <= level && level < self.levels && isnode(self, node) && below(self, node, key) && len(node.fingers) > level && next == node.fingers && len(path) == self.levels
 //@   loop 1 invariant forall j Int :: level < j && j < self.levels ==> pathok(self, path[j], j, key)
 
-// node heights are random: any rank in [1, levels] (floating point is not reasoned about)
+// node heights are random: every rank in [1, levels] must do. The floating point value p is
+// not reasoned about (float operations are uninterpreted): the rank is at least 1 whatever p is.
 //@ func (*tSkipList) mkNode
-//@   trusted
+//@   opt overflow=off
+//@   requires shape(self)
 //@   modifies Alloc
-//@   ensures 1 <= result && result <= self.levels && fresh(result1) && result1.key == key && result1.val == val && len(result1.fingers) == result
-//@   ensures forall l Int :: 0 <= l && l < result ==> result1.fingers[l] == nil
+//@   ensures rank_in_range: 1 <= result && result <= self.levels
+//@   ensures fresh_node: fresh(result1) && result1 != nil && result1.key == key && result1.val == val && len(result1.fingers) == result
+//@   ensures no_fingers_yet: forall l Int :: 0 <= l && l < result ==> result1.fingers[l] == nil
+//@   loop 0 invariant 1 <= level && level <= self.levels
 
 //@ func (*tSkipList) Get
 //@   requires skinv(self)
